@@ -34,7 +34,9 @@ RULE = ('every (prior table contents, source table, fault position in {none, hea
         'atomicity and documents nothing); typed columns, bool, NaN and >64-bit ints (the engine converts them; '
         'columns are declared without a type so sqlite stores cells unchanged); row order of SELECT without '
         'ORDER BY (tables compared as multisets); the state of the caller\'s own connection after a failed '
-        'load (pending partial work and rolled back are both accepted).')
+        'load (pending partial work and rolled back are both accepted; every call is judged against what its '
+        'own connection saw before the call, so a later committed load that also makes such pending rows durable '
+        'is counted under info:... but not reported).')
 ASSUMPTIONS = ['sqlite3 is the only engine available; other DB-API drivers / SQLAlchemy handles are not explored',
                'tables have <= 4 rows and 2 columns; prior contents are empty or 2 rows',
                'fresh-connection reads happen while the caller\'s connection may still hold an open transaction '
@@ -43,7 +45,8 @@ ASSUMPTIONS = ['sqlite3 is the only engine available; other DB-API drivers / SQL
 LOGICAL = ('a', 'b')
 NAMING = {
     'plain': ('t', ('a', 'b')),
-    'hostile': ('my "t" tbl', ('a b', 'x"y')),      # identifiers that only work when quoted per SQL-92
+    # identifiers that only work when quoted per SQL-92; these cases also pass schema='main'
+    'hostile': ('my "t" tbl', ('a b', 'x"y')),
 }
 HANDLES = [('filename', 'legacy'), ('connection', 'legacy'), ('cursor', 'legacy'), ('mkcurs', 'legacy'),
            ('connection', 'pep249'), ('cursor', 'pep249'), ('mkcurs', 'pep249')]
@@ -153,18 +156,22 @@ def cases_of(item, tier):
                         yield c
     elif kind == 'hostile':
         _, _, op = item
-        for n in range(0, 3):
+        for n in range(0, 3 if tier == 'thorough' else 2):
             for tbl in itertools.product(_R3, repeat=n):
                 for fault in _fault_positions(n, True):
                     for commit in (True, False):
                         for prior in _PRIORS:
                             for header in (('a', 'b'), ('b', 'a')):
-                                c = dict(base)
-                                c['naming'] = 'hostile'
-                                c['prior'] = prior
-                                c['steps'] = [{'op': op, 'commit': commit, 'header': header, 'rows': list(tbl),
-                                               'fault': fault, 'src': 'raw'}]
-                                yield c
+                                for schema in (None, 'main'):
+                                    c = dict(base)
+                                    c['naming'] = 'hostile'
+                                    c['prior'] = prior
+                                    st = {'op': op, 'commit': commit, 'header': header, 'rows': list(tbl),
+                                          'fault': fault, 'src': 'raw'}
+                                    if schema is not None:
+                                        st['schema'] = schema
+                                    c['steps'] = [st]
+                                    yield c
     elif kind in ('seq', 'seq3'):
         if kind == 'seq':
             _, _, between, ops, commits = item
@@ -280,10 +287,19 @@ def run_case(case, counts=None):
             exp_committed, exp_view = ref.expect(step['op'], owns, step['commit'], step['fault'],
                                                  committed_before, view_before, rows_canon)
             fn = etl.todb if step['op'] == 'todb' else etl.appenddb
+            if (si > 0 and case['steps'][si - 1]['fault'] is not None and step['fault'] is None
+                    and step['commit'] and step['op'] == 'appenddb'
+                    and ref.bag(view_before) != ref.bag(committed_before)):
+                # information only (accepted by the oracle, see RULE): the caller did not roll back after a
+                # failed load, so this commit also makes the failed load's pending rows durable
+                bump('info_pending_of_failed_load_committed_later')
             raised = None
             bump('transitions')
             try:
-                fn(_source(step, cols), handle, tname, commit=step['commit'])
+                if step.get('schema') is not None:
+                    fn(_source(step, cols), handle, tname, schema=step['schema'], commit=step['commit'])
+                else:
+                    fn(_source(step, cols), handle, tname, commit=step['commit'])
             except Exception as e:
                 raised = e
             committed_after = _fresh_rows(path, tname, cols)
@@ -367,6 +383,9 @@ def run_item(item, acc):
         acc.transitions += counts.get('transitions', 0)
         if counts.get('nontrivial_step'):
             acc.nontrivial += 1
+        if counts.get('info_pending_of_failed_load_committed_later'):
+            acc.counters['info:pending rows of a failed load committed by a later load on the same caller '
+                         'connection (no rollback in between; accepted)'] += 1
         acc.outcome(counts.get('last'))
         for st in case['steps']:
             acc.counters['%s:%s:%s' % (st['op'], case['handle'],
